@@ -15,4 +15,8 @@ def add(run, tier):
     import contracts.baseunparser as cb
     bm = importlib.import_module('calmjs.parse.unparsers.base')
     pm = importlib.import_module('calmjs.parse.parsers.es5')
-    verify_functions(run, [c for c in cb.build(bm, pm) if c.funcname.startswith('BaseUnparser.')], {}, {}, tier=tier)
+    # ... and the walk every printer drives (contracts/unparse_walk.py): rule chunks are forwarded in order, none dropped or repeated,
+    # layout markers are resolved exactly between the two text chunks they stand between
+    import contracts.unparse_walk as cw
+    wm = importlib.import_module('calmjs.parse.unparsers.walker')
+    verify_functions(run, [c for c in cb.build(bm, pm) if c.funcname.startswith('BaseUnparser.')] + cw.build(wm), {}, {}, tier=tier)
